@@ -38,3 +38,7 @@ Definition centroid_gen (len : R) (rows : N) (r : N) (first middle last : R) : R
   row_z_gen len rows r + (sigma_squared width first middle last / (2 * width)) * ln (last / first).
 Definition zR (r : N) (first middle last : R) : R :=
   centroid_gen DETECTOR_LENGTH TPC_PAD_ROWS r first middle last.
+
+(* the amplitude tests of matching.rs:78 as boolean functions on R (for instantiating Signal/Avalanches.v) *)
+Definition Rposb (x : R) : bool := if Rlt_dec 0 x then true else false.         (* x > 0.0 *)
+Definition Rgtb (a b : R) : bool := if Rlt_dec b a then true else false.        (* a > b *)
